@@ -107,18 +107,158 @@ func runC11(t *testing.T, s *kit.Session, c c11Case) *kit.Failure {
 	return nil
 }
 
+// ---- shared keys: one signature never counts as two principals ------------------
+
+type c11SharedCase struct {
+	Prins     []kit.PrincipalSpec `json:"prins"`      // principals of the primary rule file; keys may be listed under several of them
+	RulePrins []int               `json:"rule_prins"` // the rule protecting main
+	RuleThr   int                 `json:"rule_thr"`
+	K         int                 `json:"k"`      // global threshold on main
+	Signer    int                 `json:"signer"` // key signing the entry (-1 none)
+	Approvers []int               `json:"approvers,omitempty"`
+}
+
+func genC11Shared(rt *rapid.T) c11SharedCase {
+	c := c11SharedCase{}
+	n := rapid.IntRange(2, 4).Draw(rt, "nprins")
+	ids := map[string]bool{}
+	for i := 0; i < n; i++ {
+		var p kit.PrincipalSpec
+		k := rapid.IntRange(0, 2).Draw(rt, "key") // small pool => sharing is the norm
+		switch rapid.IntRange(0, 2).Draw(rt, "shape") {
+		case 0:
+			p = keyPrin(k)
+		case 1:
+			p = kit.PrincipalSpec{Person: fmt.Sprintf("person%d", i), Keys: []int{k}}
+		default:
+			k2 := rapid.IntRange(0, 3).Draw(rt, "key2")
+			p = kit.PrincipalSpec{Person: fmt.Sprintf("person%d", i), Keys: uniqInts([]int{k, k2})}
+		}
+		if ids[p.PID()] {
+			continue
+		}
+		ids[p.PID()] = true
+		c.Prins = append(c.Prins, p)
+	}
+	m := rapid.IntRange(1, len(c.Prins)).Draw(rt, "nrule")
+	c.RulePrins = append([]int{}, rapid.Permutation(indices(len(c.Prins))).Draw(rt, "ruleperm")[:m]...)
+	c.RuleThr = rapid.IntRange(1, min(2, m)).Draw(rt, "rulethr")
+	c.K = rapid.IntRange(1, 3).Draw(rt, "k")
+	c.Signer = rapid.SampledFrom([]int{-1, 0, 1, 2, 3}).Draw(rt, "signer")
+	na := rapid.IntRange(0, 3).Draw(rt, "napprovers")
+	for i := 0; i < na; i++ {
+		c.Approvers = append(c.Approvers, rapid.IntRange(0, 3).Draw(rt, "approver"))
+	}
+	c.Approvers = uniqInts(c.Approvers)
+	return c
+}
+
+func runC11Shared(t *testing.T, s *kit.Session, c c11SharedCase) *kit.Failure {
+	root := keyPrin(wgRootKey)
+	spec := kit.PolicySpec{RootPrincipals: []kit.PrincipalSpec{root}, RootThreshold: 1, TargetsKeys: []kit.PrincipalSpec{root}, TargetsThreshold: 1, RootSigners: []int{wgRootKey},
+		Targets: &kit.FileSpec{Signers: []int{wgRootKey}, Principals: c.Prins,
+			Rules: []kit.RuleSpec{{Name: "protect-main", Patterns: []string{"git:refs/heads/main"}, Principals: c.RulePrins, Threshold: c.RuleThr}}},
+		Globals: []kit.GlobalSpec{{Name: "g", Kind: "threshold", Patterns: []string{"git:refs/heads/main"}, Threshold: c.K}}}
+	w := kit.World{Policies: []kit.PolicySpec{spec}, Events: []kit.Event{{Kind: "policy", Policy: 0, Signer: -1}}}
+	if len(c.Approvers) > 0 {
+		ch := kit.Change{Ref: "refs/heads/main", From: -2, To: 1}
+		w.Events = append(w.Events, kit.Event{Kind: "approve", Signer: -1, Items: []kit.AttItem{{Kind: "auth", Stmt: ch, Path: ch, Signers: c.Approvers}}})
+	}
+	w.Events = append(w.Events, kit.Event{Kind: "push", Ref: "refs/heads/main", Tree: 1, Signer: c.Signer})
+	w.Normalise()
+	// upper bounds: distinct principals matched to distinct validly signing keys
+	valid := map[int]bool{}
+	if c.Signer >= 0 {
+		valid[c.Signer] = true
+	}
+	for _, k := range c.Approvers {
+		valid[k] = true
+	}
+	var all, rule []c05Prin
+	for _, p := range c.Prins {
+		all = append(all, c05Prin{Kind: "person", ID: p.PID(), Keys: p.Keys})
+	}
+	for _, i := range c.RulePrins {
+		rule = append(rule, all[i])
+	}
+	mAll, mRule := maxMatching(all, valid), maxMatching(rule, valid)
+	check := func(b *kit.Built) *kit.Failure {
+		accepted, rejected := 0, 0
+		var lastErr error
+		for i := 0; i < 8; i++ { // the verdict may not depend on map iteration order
+			got := verifyFull(b.Store, "refs/heads/main")
+			if got.Err == nil {
+				accepted++
+			} else {
+				rejected++
+				lastErr = got.Err
+			}
+		}
+		if accepted > 0 && mRule < c.RuleThr {
+			return &kit.Failure{Cause: "false-accept", Msg: fmt.Sprintf("accepted (%d of 8 runs) although at most %d principals of the rule can be matched to distinct validly signing keys (threshold %d)", accepted, mRule, c.RuleThr)}
+		}
+		if accepted > 0 && mAll < c.K {
+			return &kit.Failure{Cause: "global-threshold-overcount", Msg: fmt.Sprintf("accepted (%d of 8 runs) although at most %d principals of the policy can be matched to distinct validly signing keys and the global rule demands %d: one signature counted as several principals", accepted, mAll, c.K)}
+		}
+		// (with keys listed under several principals gittuf's greedy key assignment
+		// may under-count, and which principal gets a shared key depends on map
+		// order: the listed properties demand exactness - and C08 a verdict that is
+		// a function of the log - only for principals that share no keys, so a
+		// rejection here is not judged; every acceptance among the runs is)
+		_, _ = rejected, lastErr
+		return nil
+	}
+	rsl.VerifResetCache()
+	st := kit.NewMemStore()
+	b, err := kit.BuildWorld(st, &w)
+	if err != nil {
+		return &kit.Failure{Cause: "harness", Msg: "world does not build: " + err.Error()}
+	}
+	if f := confirmOnGit(t, &w, check(b), check); f != nil {
+		return f
+	}
+	shared := false
+	cnt := map[int]int{}
+	for _, p := range c.Prins {
+		for _, k := range p.Keys {
+			cnt[k]++
+			if cnt[k] > 1 && valid[k] {
+				shared = true
+			}
+		}
+	}
+	classes := []string{"shared_key_campaign"}
+	if shared {
+		classes = append(classes, "signing_key_listed_under_two_principals")
+	}
+	if mAll >= c.K && mRule >= c.RuleThr {
+		classes = append(classes, "shared_upper_bound_allows_accept")
+	}
+	s.Observe(c, shared, classes...)
+	return nil
+}
+
 func TestC11(t *testing.T) {
 	s := kit.Open(t, "C11")
 	run := func(c c11Case) *kit.Failure { return runC11(t, s, c) }
+	runShared := func(c c11SharedCase) *kit.Failure { return runC11Shared(t, s, c) }
 	if rf := kit.Replay(t); rf != nil {
+		if rf.Kind == "shared" {
+			kit.DoReplay(s, t, rf, runShared)
+			return
+		}
 		kit.DoReplay(s, t, rf, run)
 		return
 	}
-	s.SetRule("rapid: the C01 worlds whose policy states additionally declare 0-3 global rules (threshold k in 1..3 or block-force-pushes; patterns matching the verified ref, another ref, a wildcard or nothing), with pushes, force pushes (non-descendant commits), approvals, annotations and policy changes. Oracles: (i) metamorphic monotonicity - the same history is built under P+G and under P alone, accept(P+G) => accept(P); (ii)/(iii) the reference model with global rules (policy-wide credit below k or a non-descendant target => reject, rule credit >= k and descendant => accept, in between unspecified) for VerifyRefFull / VerifyRef / VerifyRefFromEntry. Non-trivial: a global rule present and (the delegation rules alone reject the history, or a force push occurs)")
+	s.SetRule("rapid: the C01 worlds whose policy states additionally declare 0-3 global rules (threshold k in 1..3 or block-force-pushes; patterns matching the verified ref, another ref, a wildcard or nothing), with pushes, force pushes (non-descendant commits), approvals, annotations and policy changes. Oracles: (i) metamorphic monotonicity - the same history is built under P+G and under P alone, accept(P+G) => accept(P); (ii)/(iii) the reference model with global rules (policy-wide credit below k or a non-descendant target => reject, rule credit >= k and descendant => accept, in between unspecified) for VerifyRefFull / VerifyRef / VerifyRefFromEntry. Second campaign (shared keys): 2-4 principals over a pool of 3-4 keys (bare keys, persons with 1-2 keys; a key is usually listed under several principals), a rule for main, a global threshold k on main, one push signed by any key plus an authorization signed by any subset; accept => the rule's and the policy's principals can be matched to >= threshold / >= k distinct validly signing keys (checked on each of 8 repeated verifications, because which principal a shared key is credited to depends on map order). Non-trivial: a global rule present and (the delegation rules alone reject the history, or a force push occurs)")
 	opt := wgOptions{Delegation: true, Globals: true, PropProtected: true}
 	kit.Campaign(s, t, "globals", "world", s.Budget(8_000, 250_000), func(rt *rapid.T) c11Case {
 		cl := map[string]bool{}
 		w := genWorld(rt, opt, cl)
 		return c11Case{World: w, Gen: sortedKeys(cl)}
 	}, run)
+	// keys listed under several principals: a global threshold counts distinct
+	// principals with distinct keys (soundness bound by maximum matching), and the
+	// bound is checked on repeated verifications
+	kit.Campaign(s, t, "shared-keys", "shared", s.Budget(3_000, 80_000), genC11Shared, runShared)
 }
